@@ -322,6 +322,108 @@ def _r_blk_written(ck, world, table, rules, infos) -> None:
 
 # ------------------------------------------------------------------------------ R-PTP
 def _r_ptp(ck, world, table) -> None:
+    """P^T P rewrite: which products are rewritten, and where the diagonal is placed, are decided by abstract execution of the
+    rule (_ptp_by_evaluation); the written form is the fallback and decides the multiplicity computation."""
+    sub = type(ck)(ck.pid)
+    _r_ptp_written(sub, world, table)
+    decided = _ptp_by_evaluation(ck, world, table)
+    for o in sub.obs:
+        if decided and o.status != 'ok' and any(k in o.construct for k in ('single indexed axis', 'diagonal placement')):
+            continue
+        ck.obs.append(o)
+    ck.floors.extend(sub.floors)
+
+
+def _ptp_by_evaluation(ck, world, table) -> bool:
+    """The rule's apply is evaluated (sa/axinterp.py) on index operators built with every index expression of up to three
+    entries over two integer arrays, an integer, a range slice, the full slice and the ellipsis that holds an integer array
+    (so that a position may be selected twice), on a three-axis leaf.  P^T P is diagonal along one axis only when a single
+    axis is indexed: with several indexed entries the rule must not fire; when it fires the diagonal operator must be built
+    on the input structure of P, along the axis of the array counted as x[...] counts it."""
+    import itertools
+
+    from ..axinterp import AxArr, Built, Env, Func, Interp, Obj, Opaque, Raised, StructLeaf, Undecided, UNK
+    from .. import run as _run
+
+    if _run.CONTROL_EXPECT and not _run.CONTROL_EXPECT.endswith(('R-PTP', 'X4', 'O6')):
+        return False
+    rule = table.by_name('TransposeIndexRule')
+    index_cls = table.by_name('IndexOperator')
+    diag = table.by_name('DiagonalOperator')
+    transpose = table.by_name('TransposeOperator')
+    r = table.resolve(rule, 'apply') if rule is not None else None
+    if None in (rule, index_cls, diag, transpose, r) or not isinstance(r.node, ast.FunctionDef):
+        return False
+    fn = r.node
+    A = AxArr(((frozenset({'a'}), 5),), 'int32')
+    B = AxArr(((frozenset({'b'}), 5),), 'int32')
+    names = {id(A): 'rows', id(B): 'cols'}
+    entries = [A, B, 0, slice(1, 3), slice(None), Ellipsis]
+    st = StructLeaf(((frozenset({'x'}), 7), (frozenset({'y'}), 6), (frozenset({'z'}), 4)), 'float32')
+
+    def text(t):
+        return '(' + ', '.join(names.get(id(e), repr(e)) for e in t) + ')'
+
+    problems: list[str] = []
+    n = fired = 0
+    for k in (1, 2, 3):
+        for t in itertools.product(entries, repeat=k):
+            arrays = [e for e in t if isinstance(e, AxArr)]
+            if not arrays or sum(e is Ellipsis for e in t) > 1 or len({id(e) for e in arrays}) < len(arrays):
+                continue
+            n += 1
+            it = Interp(world, table, budget=40_000)
+            it.watch_constructors = {diag.qual}
+            right = Obj(index_cls, {'indices': t, 'unique_indices': False, '_in_structure': st, '_out_structure': Opaque('out')})
+            left = Obj(transpose, {'operator': right})
+            indexed = [(p_, e) for p_, e in enumerate(t) if e is not Ellipsis and not (isinstance(e, slice) and e == slice(None))]
+            try:
+                res = it.call_function(Func(fn, Env(module_of(fn)), Obj(rule, {}), r.found_on), [left, right], {})
+            except Raised as exc:
+                if exc.name != 'NoReduction':
+                    problems.append(f'P^T P with P = x[{text(t)[1:-1]}]: the rule raises {exc.name}')
+                continue
+            except Undecided as exc:
+                ck.note(f'R-PTP: the rule could not be executed abstractly on {text(t)}: {exc}' + (f' [{it.degraded[0]}]' if it.degraded else ''))
+                return False
+            if not isinstance(res, list) or len(res) != 1 or not isinstance(res[0], Built) or res[0].cls is not diag:
+                ck.note(f'R-PTP: on {text(t)} the rule returns something that is not one diagonal operator built in place: not decided by evaluation')
+                return False
+            fired += 1
+            if len(indexed) > 1:
+                problems.append(f'P^T P with P = x[{text(t)[1:-1]}] is replaced by a diagonal operator although {len(indexed)} axes are indexed: the product is not diagonal along one axis')
+                continue
+            kw = dict(res[0].kwargs)
+            fields = [f.name for f in table.fields(diag)]
+            init = table.resolve(diag, '__init__')
+            if init is not None and isinstance(init.node, ast.FunctionDef):
+                pos = [a.arg for a in init.node.args.args[1:]]
+                kw.update(zip(pos, res[0].args))
+            axis = kw.get('axis_destination', 0)
+            ins = kw.get('in_structure')
+            p_ = indexed[0][0]
+            ell = [i for i, e in enumerate(t) if e is Ellipsis]
+            want = p_ if (not ell or p_ < ell[0]) else p_ - len(t)
+            if ins is not st:
+                problems.append(f'P^T P with P = x[{text(t)[1:-1]}]: the diagonal operator is not built on the input structure of P')
+            elif not isinstance(axis, int) or isinstance(axis, bool):
+                ck.note(f'R-PTP: on {text(t)} the axis of the diagonal is not a concrete integer: not decided by evaluation')
+                return False
+            elif axis % 3 != want % 3:
+                problems.append(f'P^T P with P = x[{text(t)[1:-1]}]: the diagonal is placed along axis {axis}, the array indexes axis {want}')
+            cov = kw.get('diagonal')
+            if isinstance(cov, AxArr) and cov.shape != (st.shape[want % 3],):
+                problems.append(f'P^T P with P = x[{text(t)[1:-1]}]: the multiplicities have shape {cov.shape}, the indexed axis has {st.shape[want % 3]} positions')
+    if fired == 0:
+        ck.note('R-PTP: the rule never fires on the evaluated expressions: not decided by evaluation')
+        return False
+    ck.expect('R-PTP', not problems, fn, f'on {n} index expressions holding an integer array the rule fires only when one axis is indexed ({fired} expressions) and places the diagonal '
+              'on the input structure of P along that axis', f'{problems[0] if problems else ""} ({len(problems)} of {n} expressions)', instance='P^T P by evaluation', semantic=True)
+    ck.floor('R-PTP', n, 100, 'index expressions evaluated on the P^T P rule')
+    return True
+
+
+def _r_ptp_written(ck, world, table) -> None:
     rule = table.by_name('TransposeIndexRule')
     info = rule_info(table, rule)
     combos = [c for c in combined_paths(world, table, rule) if c[1].exit == 'return']
@@ -709,7 +811,62 @@ def _r_ident(ck, world, table) -> None:
             for o in sub.obs:
                 o.rule = f'{ck.pid}.R-IDENT'
                 ck.obs.append(o)
+    # IndexOperator.reduce: where the written guard is not recognised, reduce() is evaluated on index expressions
+    pending = [o for o in ck.obs if o.rule.endswith('R-IDENT') and o.status != 'ok' and 'IndexOperator.reduce' in o.construct]
+    if pending:
+        verdict = _index_reduce_by_evaluation(world, table)
+        if verdict is not None:
+            ck.obs[:] = [o for o in ck.obs if o not in pending]
+            fn_ = table.by_name('IndexOperator').own.get('reduce')
+            ck.expect('R-IDENT', not verdict[1], fn_, f'on {verdict[0]} index expressions reduce() returns the identity (on the input structure) only when every entry is a full slice or the ellipsis',
+                      f'{verdict[1][0] if verdict[1] else ""} ({len(verdict[1])} of {verdict[0]} expressions): an operator that changes its input is replaced by the identity', instance='no-op guard', semantic=True)
     ck.floor('R-IDENT', n, 3, 'identity-returning reduce sites')
+
+
+def _index_reduce_by_evaluation(world, table):
+    """(number of expressions, problems) or None when not decided: IndexOperator.reduce evaluated (sa/axinterp.py) on operators
+    holding every index expression of up to three entries over an integer array, a mask, an integer, a range slice, the full
+    slice and the ellipsis."""
+    import itertools
+
+    from ..axinterp import AxArr, Interp, Obj, Opaque, Raised, StructLeaf, Undecided
+
+    cls = table.by_name('IndexOperator')
+    ident = table.by_name('IdentityOperator')
+    if cls is None or ident is None or table.resolve(cls, 'reduce') is None:
+        return None
+    A = AxArr(((frozenset({'a'}), 5),), 'int32')
+    M = AxArr(((frozenset({'m'}), 7),), bool)
+    names = {id(A): 'rows', id(M): 'mask'}
+    entries = [A, M, 0, slice(1, 3), slice(None), Ellipsis]
+    st = StructLeaf(((frozenset({'x'}), 7), (frozenset({'y'}), 6), (frozenset({'z'}), 4)), 'float32')
+    problems: list[str] = []
+    n = 0
+    for k in (0, 1, 2, 3):
+        for t in itertools.product(entries, repeat=k):
+            if sum(e is Ellipsis for e in t) > 1:
+                continue
+            n += 1
+            it = Interp(world, table, budget=20_000)
+            it.constructible = {ident.qual}
+            op = Obj(cls, {'indices': t, 'unique_indices': not any(e is A for e in t), '_in_structure': st, '_out_structure': Opaque('out')})
+            try:
+                res = it.call_method(op, 'reduce')
+            except (Raised, Undecided):
+                return None
+            if it.degraded:
+                return None
+            selects = any(not (e is Ellipsis or (isinstance(e, slice) and e == slice(None))) for e in t)
+            text = '(' + ', '.join(names.get(id(e), repr(e)) for e in t) + ')'
+            if res is op:
+                continue
+            if not (isinstance(res, Obj) and res.cls is ident):
+                return None
+            if selects:
+                problems.append(f'IndexOperator({text}).reduce() is the identity')
+            elif res.attrs.get('_in_structure') is not st:
+                problems.append(f'IndexOperator({text}).reduce() is an identity that is not on the input structure')
+    return n, problems
 
 
 # ------------------------------------------------------------------------------ R-PURE
